@@ -367,7 +367,33 @@ def run(rep: Report, tier: str) -> None:
 	ox = X(oi)
 	ints = [cl for cl in nodes(ox, ast.Call) if unparse(cl.func) == 'int']
 	hex_tests: list = []
-	if not ints:
+	# decided by evaluation (vlib/dsneval.py) on representatives of the two integer terminals the operator set admits — the handler may delegate to a
+	# property of the node class (`node.as_int`), which is followed: the folded value must be the value CPython gives the literal text
+	from vlib import dsneval
+	lit_mod = idx.mod('rogw/tranp/syntax/node/definition/literal.py')
+	evaluated_int = evaluated_float = False
+	nparam = oi.params()[1] if len(oi.params()) > 1 else 'node'
+	reps_i = ['12', '0', '7', '0x1F', '0X1f', '0xff', '1_000', '1_0']
+	got_i = {t: dsneval.call_function(c, 'on_integer', [object()], {}, 0, {f'{nparam}.tokens': t, '__objects__': {nparam: (lit_mod.cls('Integer'), {'tokens': t})}}) for t in reps_i}
+	if all(v is not dsneval.UNKNOWN for v in got_i.values()):
+		evaluated_int = True
+		for t, v in got_i.items():
+			want = ast.literal_eval(t)
+			shown = 'an exception (int() rejects the text)' if v is dsneval.RAISES else repr(v)
+			r4.check(v is not dsneval.RAISES and v == want and type(v) is type(want), f'integer:{t}', oi.where, f'on_integer folds the literal `{t}` to {shown}; CPython evaluates it to {want!r}' + (': a decimal literal with digit separators is read in base 16 (`1_000 + 1` folds to 4097)' if '_' in t and v not in (want, dsneval.RAISES) else ''), f'{t} -> {shown}')
+	of_ = c.method('on_float')
+	fparam = of_.params()[1] if of_ is not None and len(of_.params()) > 1 else 'node'
+	reps_f = ['1.5', '0.25', '1e5', '2E-3', '.5', '1.']
+	got_f = {t: dsneval.call_function(c, 'on_float', [object()], {}, 0, {f'{fparam}.tokens': t, '__objects__': {fparam: (lit_mod.cls('Float'), {'tokens': t})}}) for t in reps_f} if of_ is not None else {}
+	if got_f and all(v is not dsneval.UNKNOWN for v in got_f.values()):
+		evaluated_float = True
+		for t, v in got_f.items():
+			want = ast.literal_eval(t)
+			shown = 'an exception' if v is dsneval.RAISES else repr(v)
+			r4.check(v is not dsneval.RAISES and v == want and type(v) is type(want), f'float:{t}', of_.where, f'on_float folds the literal `{t}` to {shown}; CPython evaluates it to {want!r}', f'{t} -> {shown}')
+	if evaluated_int:
+		ints = []
+	elif not ints:
 		r4.skip('integer', oi.where, 'on_integer no longer calls int(...)')
 	for cl in ints:
 		base = next((kw.value for kw in cl.keywords if kw.arg == 'base'), cl.args[1] if len(cl.args) > 1 else None)
@@ -392,7 +418,8 @@ def run(rep: Report, tier: str) -> None:
 			r4.check(hexfact in ([False], []) and unparse(cl.args[0]).endswith('tokens') and (hexfact == [False] or len(ints) == 1), 'integer:dec', (EVAL, cl.lineno), f'`{unparse(cl)}` must decode the literal text in base 10 when there is no 0x prefix (conditions {fs})')
 	of = c.method('on_float')
 	ofx = X(of)
-	r4.check(any(isinstance(n.value, ast.Call) and unparse(n.value.func) == 'float' and len(n.value.args) == 1 and unparse(n.value.args[0]).endswith('.tokens') for n in nodes(ofx, ast.Return) if n.value is not None), 'float', of.where, 'on_float no longer returns float(node.tokens)')
+	if not evaluated_float:
+		r4.check(any(isinstance(n.value, ast.Call) and unparse(n.value.func) == 'float' and len(n.value.args) == 1 and unparse(n.value.args[0]).endswith('.tokens') for n in nodes(ofx, ast.Return) if n.value is not None), 'float', of.where, 'on_float no longer returns float(node.tokens)')
 	fc = c.method('on_func_call')
 	fcx = X(fc)
 	seen_casts = set()
